@@ -14,7 +14,7 @@ PLAIN = [
     "path_lengths", "average_path_length", "diameter", "closeness",
     "global_efficiency", "betweenness", "matching_index", "coreness",
     "laplacian", "link_betweenness", "local_vulnerability", "assortativity",
-    "eigenvector_centrality", "newman_betweenness", "arenas_betweenness",
+    "eigenvector_centrality", "newman_betweenness", "arenas_betweenness", "pagerank",
 ]
 NSI = [
     "nsi_degree", "nsi_indegree", "nsi_outdegree", "nsi_bildegree",
